@@ -4,6 +4,7 @@ package main
 // natively compiled real code with `go test -overlay`, the harness and shim injected virtually.
 
 import (
+	"crypto/sha256"
 	"encoding/json"
 	"fmt"
 	"os"
@@ -95,6 +96,7 @@ func TestVerifReplay(t *testing.T) {
 	seen := map[string]int{}
 	assumeFails := 0
 	for i := 0; i < attempts; i++ {
+		os.Setenv("VERIF_EPOCH", strconv.Itoa(i+1))
 		verifReset()
 		fails, pan, af := verifRunOne(f)
 		if af {
@@ -160,10 +162,8 @@ func (r *replayer) overlayFor(rel string) (string, error) {
 	repl := map[string]string{}
 	pkgName := ""
 	var harnessFuncs []string
-	i := 0
 	for target, content := range r.ld.Overlay {
-		i++
-		real := filepath.Join(r.dir, fmt.Sprintf("ov%d_%s", i, filepath.Base(target)))
+		real := filepath.Join(r.dir, fmt.Sprintf("ov_%x_%s", sha256.Sum256([]byte(target)), filepath.Base(target)))
 		if _, err := os.Stat(real); err != nil {
 			if err := os.WriteFile(real, content, 0o644); err != nil {
 				return "", err
